@@ -13,6 +13,9 @@ checks = {
  "C04": dict(engine="world-C", cat="fault_enumeration", ref="DESIGN.md §5 C04",
    text="within each seeded scenario the fault points of chunk persistence are enumerated from the recorded file-system trace (every create/write/close/rename/unlink of a chunk file x {error, kill}; for writes the byte offsets {0,1,n/2,n-1,n}+random as short write, error-after-k and kill-after-k), across scenarios placement is seeded; after restarts a healthy consumer must receive only byte-identical chunks and every intact file.",
    note="crash model = process kill (completed writes survive, the write in progress stops after k bytes); power loss not modelled; simfs is a model of the kernel's file API"),
+ "C08": dict(engine="world-E", cat="exploration", ref="DESIGN.md §5 C08",
+   text="seeded search over record streams, read fragmentations and pause timings around the flush interval, plus the exhaustive sweep of all 1-cut and 2-cut splits of each short base stream, against the real listener/framer on simulated TCP; emitted messages compared with an independent line-based reference framer.",
+   note="trusted base: simulator and simnet (segment-preserving reads, deadline semantics of net.Conn); limits scaled down with the shipped relations; newline-terminated streams only"),
 }
 na_pure = {
  "C09":"pure single-threaded function of one input line (syslogParser.Parse): no schedule, clock, fault or interleaving for a simulator to own (DESIGN.md §6)",
